@@ -27,6 +27,8 @@ func roleName(active bool) string {
 type scenario struct {
 	tag    string
 	active bool
+	e4     bool // SECS-I transport against the E4-speaking peer
+	equip  bool // SECS-I role of the library end
 	cfg    lc.Cfg
 	plans  []lc.Plan // plan of connection attempt i; beyond the slice: Normal
 	// expectations
@@ -65,12 +67,26 @@ func runScenario(c *vh.Ctx, sc scenario) {
 		}
 		return lc.Normal()
 	}
-	r, err := lc.New(sc.active, sc.cfg, planFn)
+	var r *lc.Rig
+	var err error
+	if sc.e4 {
+		r, err = lc.NewSecs1E4(sc.active, sc.equip, sc.cfg, planFn)
+	} else {
+		r, err = lc.New(sc.active, sc.cfg, planFn)
+	}
 	if err != nil {
 		c.Fail("C11: cannot build a connection", sc.tag+": "+err.Error())
 		return
 	}
-	desc := func() string { return sc.tag + " " + roleName(sc.active) }
+	desc := func() string {
+		if sc.e4 {
+			if sc.equip {
+				return sc.tag + " secs1-equipment-" + roleName(sc.active)
+			}
+			return sc.tag + " secs1-host-" + roleName(sc.active)
+		}
+		return sc.tag + " " + roleName(sc.active)
+	}
 	stop := make(chan struct{})
 	if !sc.active {
 		go keepConnecting(r, stop)
@@ -106,9 +122,14 @@ func runScenario(c *vh.Ctx, sc scenario) {
 			time.Sleep(time.Millisecond)
 			continue
 		}
-		ok, _, pn := r.SendRoundTrip(sc.cfg.T3)
+		ok, serr, pn := r.SendRoundTrip(sc.cfg.T3)
 		if pn != nil {
 			c.Fail("C11: SendDataMessage panicked", desc())
+			break
+		}
+		if serr == lc.ErrSendHung {
+			c.Fail("C11: a send on a connection whose link was lost blocked beyond its context (the loss was never reported)",
+				fmt.Sprintf("%s state=%v reconnects=%d", desc(), r.Conn.State(), r.Conn.Metrics().Reconnects()))
 			break
 		}
 		// recovered = a round trip succeeded while every scripted (failing) generation is gone and
@@ -198,7 +219,11 @@ func runScenario(c *vh.Ctx, sc scenario) {
 	toks += fmt.Sprintf(" RC %d %d", metric, ups)
 	line := "E " + desc() + " | " + toks
 	c.Case(line, line, true)
-	c.Count("e2e/" + strings.SplitN(sc.tag, ":", 2)[0] + "/" + roleName(sc.active))
+	tr := ""
+	if sc.e4 {
+		tr = "secs1-"
+	}
+	c.Count("e2e/" + strings.SplitN(sc.tag, ":", 2)[0] + "/" + tr + roleName(sc.active))
 }
 
 // servedByFresh: a data primary reached (and was answered by) a peer beyond the scripted plans.
@@ -369,6 +394,32 @@ func e2ePass(c *vh.Ctx) {
 			tag = "poke:cold-peer"
 		}
 		runScenario(c, scenario{tag: tag, active: true, cfg: cfg, plans: plans, wantDrops: true, poke: true, quiet: true})
+	}
+	// --- C4: SECS-I: the link dies at EVERY position of the E4 line protocol — in the exchange the
+	// library initiates (O1..O6) and in the one the peer initiates (P1..P5) — both ways a pipe can die
+	// (the peer closes; the library's own end is closed underneath it), active/passive x equipment/host.
+	// This is the correspondence for the model's single abstraction "the transport reports the loss of
+	// the link on any I/O error" (LcRecvExit true / LcSpuriousDown).
+	for _, active := range []bool{true, false} {
+		for _, equip := range []bool{true, false} {
+			for _, under := range []bool{false, true} {
+				for si, st := range lc.E4Stages {
+					if !thorough && !active && under && si%2 == 1 {
+						continue // quick: thin out one of the eight combinations
+					}
+					cfg := e2eCfg()
+					cfg.Linktest = 0
+					p := lc.Normal()
+					p.E4Cut, p.E4Under = st, under
+					how := "peer-closes"
+					if under {
+						how = "closed-underneath"
+					}
+					runScenario(c, scenario{tag: fmt.Sprintf("e4cut:%s/%s", st, how), active: active, e4: true, equip: equip, cfg: cfg,
+						plans: []lc.Plan{p}, wantDrops: true})
+				}
+			}
+		}
 	}
 	// --- D: runs of k failed dials under several backoff configurations (active) ---
 	type bo struct {
